@@ -244,13 +244,25 @@ Proof.
   destruct (init_set_seq _ _ _ _ _) as [s4 r4]. destruct r4; simpl; [|reflexivity].
   rewrite hio_g_extend, !hio_reg_values. reflexivity.
 Qed.
+Lemma hio_graph_init c h g gi go d ns : hio (graph_init c h g gi go d ns) = hio h.
+Proof. unfold graph_init. cbn [hio with_nm]. rewrite hio_g_extend, !hio_reg_values. reflexivity. Qed.
 Lemma hio_graph_new c h g gi go ginit ns : hio (fst (graph_new c h g gi go ginit ns)) = hio h.
 Proof.
   unfold graph_new. destruct (negb (blank_graph h g)); [reflexivity|].
-  destruct (_ && c SGraphNew); [reflexivity|].
-  pose proof (hio_graph_build c h g gi go (dict_of (how h) ginit []) ns) as Hb.
-  destruct (graph_build _ _ _ _ _ _ _) as [h' r]. simpl in Hb.
-  destruct r; simpl; [assumption|]. destruct (_ || _); simpl; [assumption|reflexivity].
+  destruct (c SGraphNew).
+  - destruct (graph_new_reject _ _ _ _ _); [reflexivity|]. cbn [fst K]. apply hio_graph_init.
+  - pose proof (hio_graph_build c h g gi go (dict_of (how h) ginit []) ns) as Hb.
+    destruct (graph_build _ _ _ _ _ _ _) as [h' r]. simpl in Hb.
+    destruct r; simpl; [assumption|]. destruct (_ || _); simpl; [assumption|reflexivity].
+Qed.
+
+Lemma hio_sort_fold c orders : forall h0,
+  hio (fold_left (fun h go => fst (g_extend c h (fst go) (snd go))) orders h0) = hio h0.
+Proof. induction orders as [|go t IH]; intros h0; simpl; [reflexivity|]. rewrite IH. apply hio_g_extend. Qed.
+Lemma hio_g_sort c h out : hio (fst (g_sort c h out)) = hio h.
+Proof.
+  unfold g_sort. destruct out as [orders|]; [|reflexivity]. destruct (sort_valid h orders); [|reflexivity]. cbn [fst K].
+  apply hio_sort_fold.
 Qed.
 
 Lemma I1_remove_one safe g n h : I1 (hio h) -> I1 (hio (remove_one safe h g n)).
@@ -283,6 +295,7 @@ Proof.
     unfold g_remove. destruct (forallb _ _); simpl; [|assumption].
     generalize (dedup ns). intros l. revert h HI. induction l as [|x t IH]; intros h HI; simpl; [assumption|].
     apply IH. apply I1_remove_one. assumption.
+  - rewrite hio_g_sort. assumption.
   - (* NReplaceInput *)
     unfold n_replace_input. destruct (_ || _)%bool eqn:E; simpl; [assumption|].
     apply orb_false_iff in E. destruct E as [E1 E2]. apply I1_replace; [assumption|].
